@@ -345,6 +345,36 @@ impl Prop for C13 {
                 return out;
             }
         };
+        // "every ... duration intact": what the reader holds for the three duration fields must be
+        // the numbers the independent parser found in the header bytes (which were compared with
+        // the model above) - in particular the last value of the 32-bit form, 2^32 - 1
+        {
+            let rd = &p.reader;
+            if rd.moov.mvhd.duration != m.duration {
+                out.push(Violation::new(prop, "reader_duration", "field=mvhd", format!("reader holds {}, the header bytes say {}", rd.moov.mvhd.duration, m.duration)));
+            }
+            for it in &m.tracks {
+                if let Some(tr) = rd.tracks().get(&it.track_id) {
+                    if tr.trak.tkhd.duration != it.tkhd_duration {
+                        out.push(Violation::new(prop, "reader_duration", "field=tkhd", format!("track {}: reader holds {}, the header bytes say {}", it.track_id, tr.trak.tkhd.duration, it.tkhd_duration)));
+                    }
+                    if tr.trak.mdia.mdhd.duration != it.mdhd_duration {
+                        out.push(Violation::new(prop, "reader_duration", "field=mdhd", format!("track {}: reader holds {}, the header bytes say {}", it.track_id, tr.trak.mdia.mdhd.duration, it.mdhd_duration)));
+                    }
+                    // the accessor reports whole milliseconds of mdhd.duration / timescale
+                    let want_ms = it.mdhd_duration as u128 * 1000 / it.timescale.max(1) as u128;
+                    let got_ms = tr.duration().as_millis();
+                    if got_ms.abs_diff(want_ms) > 1 {
+                        out.push(Violation::new(prop, "reader_duration", "field=track_duration_accessor", format!("track {}: duration() = {} ms, header says {} ms", it.track_id, got_ms, want_ms)));
+                    }
+                }
+            }
+            let want_ms = m.duration as u128 * 1000 / m.timescale.max(1) as u128;
+            let got_ms = rd.duration().as_millis();
+            if got_ms.abs_diff(want_ms) > 1 {
+                out.push(Violation::new(prop, "reader_duration", "field=movie_duration_accessor", format!("duration() = {} ms, header says {} ms", got_ms, want_ms)));
+            }
+        }
         if p.track_ids() != (1..=model.tracks.len() as u32).collect::<Vec<_>>() {
             out.push(Violation::new(prop, "track_set", "", format!("{:?}", p.track_ids())));
         } else {
